@@ -298,7 +298,7 @@ public:
         } else if (thorough && rng.chance(250)) { o.max_n = 24; o.max_m = 60; }
         else { o.max_n = 9; o.max_m = 36; }
         o.core_sat_pm = 40;
-        if (p == "C04") { o.boundary_pm = prop == "C07" ? 30 : 6; o.boundary_max_n = 129; }
+        if (p == "C04") { o.boundary_pm = prop == "C07" ? 30 : 6; o.boundary_max_n = 129; o.dense_pm = prop == "C07" ? 3 : 8; }   // dense: hundreds of candidates / cycles per rank
         gen::GGraph g = gen::gen_graph(rng, o);
         cs["graph"] = gen::to_json(g);
         cfg["P"] = P; cmin["P"] = 1;
